@@ -82,6 +82,8 @@ def fam_functions():
     out.append(("fn_global_late", HEADER + "def fa(xa):\n    global total\n    total = total + xa\ndef fb(xa):\n    global total\n    total = total * 2 + xa\ntotal = 100\nwhile True:\n    fa(d0.Setting)\n    vt = d1.Setting * 3 + 1\n    vu = vt * 2\n    fb(vu)\n    d2.Setting = total + vt\n    yield_()\n"))
     out.append(("fn_global_hidden", HEADER + "def bump():\n    global total\n    total = total + 1\ndef report():\n    d1.Setting = total\ntotal = 100\nwhile True:\n    va = d0.Setting * 2 + 1\n    vb = va * va + 3\n    bump()\n    bump()\n    d2.Setting = vb + va\n    report()\n    yield_()\n"))
     out.append(("fn_nested_bound", HEADER + "def area(wa, ha):\n    acc = 0\n    for ia in range(wa):\n        for ib in range(ha):\n            acc = acc + ia + 1\n    return acc\nwhile True:\n    d1.Setting = area(d0.Setting, 2) + area(2, d0.Setting)\n    yield_()\n"))
+    out.append(("fn_return_in_trailing_loop", HEADER + "def fa(xa):\n    kk = 0\n    while kk < 3:\n        kk = kk + 1\n        d1.Setting = kk\n        if kk >= xa:\n            return\ndef fb(xa):\n    for idx in range(3):\n        d2.Setting = idx\n        if idx == xa:\n            return\nwhile True:\n    fa(d0.Setting)\n    fa(2)\n    fb(d0.Setting)\n    fb(1)\n    d3.On = 1\n    yield_()\n"))
+    out.append(("fn_nested_call_later_arg", HEADER + "def scale(xa):\n    return xa * 2\ndef show(xa, xb):\n    d1.Setting = xa\n    d2.Setting = xb\n    return xa + xb\nwhile True:\n    vn = d0.Setting\n    d3.Setting = show(vn, scale(vn + 10)) + show(scale(1), vn)\n    yield_()\n"))
     out.append(("fn_uncalled", HEADER + "def fa(xa):\n    return xa + 1\ndef fnever(xa):\n    d3.Setting = xa\n    return 0\nwhile True:\n    d1.Setting = fa(d0.Setting)\n    yield_()\n"))
     return out
 
@@ -114,6 +116,24 @@ def fam_access():
     out.append(("ac_hash", _loop('d0.Setting = HASH("abc")\nd1.Setting = d0.PrefabHash == HASH("StructureWallHeater")')))
     out.append(("ac_math", _loop("va = d0.Setting\nd1.Setting = max(va, 1) + min(va, 0) + abs(va) + floor(va / 2)")))
     out.append(("ac_sleep", HEADER + "while True:\n    d1.Setting = d0.Setting\n    sleep(2)\n"))
+    return out
+
+
+def fam_lists():
+    """constant lists of every length 1..9 with a run-time index (select chain below six entries, jump table from six on),
+    and for-loops over constant lists (jal / j ra subroutine), also inside functions and with bodies that change the variable"""
+    out = []
+    vals = [4, 8, 15, 16, 23, 42, 7, 9, 11]
+    for n in range(1, 10):
+        lst = ", ".join(str(v) for v in vals[:n])
+        guard = f"if vi >= 0 and vi < {n}:\n    d1.Setting = tbl[vi]\nelse:\n    d1.Setting = 0 - 1"
+        out.append((f"ls_index_{n}", HEADER + f"tbl = [{lst}]\nwhile True:\n    vi = d0.Setting\n" + "\n".join("    " + x for x in guard.split("\n")) + "\n    yield_()\n"))
+    out.append(("ls_index_6_wide", HEADER + "tbl = [4, 8, 15, 16, 23, 42]\nwhile True:\n    vi = d0.Setting + d1.Setting * 2\n    if vi >= 0 and vi < 6:\n        d2.Setting = tbl[vi] + 1\n    yield_()\n"))
+    out.append(("ls_index_7_wide", HEADER + "tbl = [4, 8, 15, 16, 23, 42, 7]\nwhile True:\n    vi = d0.Setting + d1.Setting * 3 + 1\n    if vi >= 0 and vi < 7:\n        d2.Setting = tbl[vi] + 1\n    yield_()\n"))
+    out.append(("ls_for_dups", _loop("acc = 0\nfor val in [10, 20, 20, 35]:\n    acc = acc + val\n    d0.Setting = val")))
+    out.append(("ls_for_modifies_var", _loop("base = d1.Setting\nfor lev in [10, 20, 20, 35]:\n    lev += base\n    d0.Setting = lev")))
+    out.append(("ls_for_in_function", HEADER + "def fa(xa):\n    acc = xa\n    for val in [3, 5, 5]:\n        acc = acc + val\n        d1.Setting = acc\n    return acc\nwhile True:\n    d2.Setting = fa(d0.Setting) + fa(1)\n    yield_()\n"))
+    out.append(("ls_for_hashes", _loop('for nh in [HASH("O2"), HASH("N2")]:\n    d0.Setting = nh')))
     return out
 
 
@@ -158,6 +178,7 @@ FAMILIES = {
     "pressure": fam_pressure,
     "access": fam_access,
     "term": fam_term,
+    "lists": fam_lists,
 }
 
 
